@@ -171,6 +171,11 @@ class Group:
     def prep_text(self, text, log):
         text = resolve_cfg(text, self.features, log)
         text = strip_docs_and_attrs(text, log)
+        # rule R19: fully qualified dependency / crate paths are shortened (the prelude mirrors the names at the root)
+        new_text, n = re.subn(r"\b(?:cosmwasm_std|cw_storage_plus|cw_utils)::(?:testing::)?(?=[A-Za-z_])", "", text)
+        if n:
+            log.append({"rule": "R19-path", "count": n})
+            text = new_text
         # rule R1: a closure parameter `_` gets a name (Verus: "only variables are supported here")
         def r1(mm):
             self._r1 = getattr(self, "_r1", 0)
